@@ -785,6 +785,21 @@ class StmtMixin:
             if f is not None and f.locals.get('__yield_sym__') is None:
                 f.locals['__yield_sym__'] = it
                 return
+        # generator filter: `for x in S: if P(x): yield x` yields what `[x for x in S if P(x)]` holds (the generator is run eagerly, see section 3.3)
+        if lc is None and len(st.body) == 1 and isinstance(st.body[0], ast.If) and not st.body[0].orelse and len(st.body[0].body) == 1 \
+                and isinstance(st.body[0].body[0], ast.Expr) and isinstance(st.body[0].body[0].value, ast.Yield) \
+                and isinstance(st.body[0].body[0].value.value, ast.Name) and isinstance(st.target, ast.Name) \
+                and st.body[0].body[0].value.value.id == st.target.id and not st.orelse and (self.is_symlist(it) or isinstance(it, VSeq)):
+            f = fr
+            while f is not None and '__yield__' not in f.locals:
+                f = f.parent
+            if f is not None and f.locals.get('__yield_sym__') is None and not f.locals['__yield__']:
+                comp = ast.ListComp(elt=ast.Name(id=st.target.id, ctx=ast.Load()),
+                                    generators=[ast.comprehension(target=st.target, iter=st.iter, ifs=[st.body[0].test], is_async=0)])
+                ast.copy_location(comp, st)
+                ast.fix_missing_locations(comp)
+                f.locals['__yield_sym__'] = self.filter_comprehension(comp, comp.generators[0], it, fr)
+                return
         if lc is None:
             # No contract: nothing can be PROVED about this loop.  As for `while` (while_unrolled): the state it is reached in is the real one, so the
             # path on which the collection is empty goes on normally and one iteration over a non-empty collection is a genuine execution prefix -
